@@ -58,7 +58,7 @@ def gen_stream(rng, maxsize: int) -> tuple[list[bytes], str]:
         # above 65535 is not expressible in the 16-bit field: only the 4096 session has a 'too long'
         msgs.append(mk(2, b'', length=rng.choice([4097, 4098, 65535]) if maxsize == 4096 else 18))
     elif fault == 'pertype':
-        ty, ln = rng.choice([(1, 28), (1, 19), (2, 22), (3, 20), (4, 20), (4, 4096), (5, 22), (5, 24)])
+        ty, ln = rng.choice([(1, 28), (1, 19), (2, 22), (3, 20), (3, 19), (4, 20), (4, 4096), (5, 22), (5, 24)])
         msgs.append(mk(ty, bytes(max(0, ln - 19)), length=ln))
     elif fault == 'unknown-type':
         ty = rng.choice([0, 6, 7, 9, 100, 252, 255])
@@ -104,7 +104,8 @@ def reference(stream: bytes, maxsize: int) -> list[str]:
             out.append('err 1 2')
             return out
         lo, hi = VALID_LEN.get(ty, (19, None))
-        if ln < lo or (hi is not None and ln > hi):
+        # RFC 4271 6.4: an error in a NOTIFICATION (type 3) is not reported back with a NOTIFICATION
+        if ty != 3 and (ln < lo or (hi is not None and ln > hi)):
             out.append('err 1 2')
             return out
         if len(stream) - i < ln:
